@@ -399,6 +399,31 @@ func c15Handler(c *Ctx, p *Prog, m *Model) {
 					if !isAttrKey(cs.Common().Args[0], caf.Params[0]) {
 						r.Bad("R15.3", "convertAttrToField:key:"+nm(cal), p.Pos(instrPos(cs)), "the converted attribute does not keep the log/slog attribute's key")
 					}
+					// the value is the accessor's result itself: no conversion that loses part of its range
+					var lossy []string
+					for v := cs.Common().Args[1]; ; {
+						cv, ok := v.(*ssa.Convert)
+						if !ok {
+							break
+						}
+						sb, tb := intBits(cv.X.Type()), intBits(cv.Type())
+						if sb > 0 && tb > 0 {
+							su, tu := isUnsigned(cv.X.Type()), isUnsigned(cv.Type())
+							if tb < sb || (su != tu && !(su && tb > sb)) {
+								lossy = append(lossy, fmt.Sprintf("%s converted to %s", cv.X.Type(), cv.Type()))
+							}
+						} else if sb > 0 || tb > 0 {
+							if bt, ok := cv.Type().Underlying().(*types.Basic); ok && bt.Info()&types.IsFloat != 0 && sb > 32 {
+								lossy = append(lossy, fmt.Sprintf("%s converted to %s", cv.X.Type(), cv.Type()))
+							}
+							if bt, ok := cv.X.Type().Underlying().(*types.Basic); ok && bt.Info()&types.IsFloat != 0 && tb > 0 {
+								lossy = append(lossy, fmt.Sprintf("%s converted to %s", cv.X.Type(), cv.Type()))
+							}
+						}
+						v = cv.X
+					}
+					r.Check(len(lossy) == 0, "R15.3", "convertAttrToField:value:"+nm(cal), p.Pos(instrPos(cs)), "the value handed on is the accessor's result without a range-losing conversion",
+						"a log/slog value does not arrive with its value: "+strings.Join(lossy, "; ")+" (values outside the target's range wrap or are rounded)")
 				}
 			}
 			// group arm converts all members, LogValuer resolves
@@ -451,6 +476,52 @@ func c15Handler(c *Ctx, p *Prog, m *Model) {
 			case "fields":
 				// append(append(fresh, s.fields...), fields...)
 				outer, ok := strip(fs.Val).(*ssa.Call)
+				if ok {
+					// the library form: slices.Concat(old, new) always returns a fresh array holding its operands in order
+					if cal := calleeOf(outer); cal != nil && origin(cal).String() == "slices.Concat" {
+						iOld, iNew := -1, -1
+						var operands []ssa.Value
+						if sl, isSl := outer.Common().Args[0].(*ssa.Slice); isSl {
+							if al, isAl := sl.X.(*ssa.Alloc); isAl {
+								for _, ref := range *al.Referrers() {
+									if ia, isIA := ref.(*ssa.IndexAddr); isIA {
+										k, _ := constInt(ia.Index)
+										for _, r2 := range *ia.Referrers() {
+											if st, isSt := r2.(*ssa.Store); isSt {
+												for int64(len(operands)) <= k {
+													operands = append(operands, nil)
+												}
+												operands[k] = st.Val
+											}
+										}
+									}
+								}
+							}
+						}
+						for i, o := range operands {
+							if o == nil {
+								continue
+							}
+							if dependsOnFieldLoad(o, "handler4LogSlog", "fields") {
+								iOld = i
+							}
+							if dependsOnParam(o, wf.Params[len(wf.Params)-1]) {
+								iNew = i
+							}
+						}
+						switch {
+						case iOld < 0:
+							probs = append(probs, "the receiver's fields are dropped")
+						case iNew < 0:
+							probs = append(probs, "the fields given are not added")
+						case iOld > iNew:
+							probs = append(probs, "the fields given are put in front of the receiver's fields")
+						default:
+							okFields = true
+						}
+						break
+					}
+				}
 				if !ok || !isBuiltinCall(outer, "append") {
 					probs = append(probs, "the field list is not built by appending")
 					break
@@ -654,6 +725,14 @@ func c15Bridge(c *Ctx, p *Prog, m *Model) {
 			if s == ssa.Value(buf) {
 				continue
 			}
+			// the library form of the same operation: bytes.TrimSuffix(buf, "\n") drops exactly one trailing newline when there is one
+			if call, isCall := s.(*ssa.Call); isCall {
+				if cal := calleeOf(call); cal != nil && (cal.String() == "bytes.TrimSuffix" || cal.String() == "strings.TrimSuffix") && call.Common().Args[0] == ssa.Value(buf) {
+					if isNewlineConst(call.Common().Args[1]) {
+						continue
+					}
+				}
+			}
 			sl, isSl := s.(*ssa.Slice)
 			good := isSl && sl.X == ssa.Value(buf) && sl.Low == nil
 			if good {
@@ -797,4 +876,35 @@ func (m *Model) localGateGeneric(site ssa.CallInstruction, fn *ssa.Function) (bo
 		return true, ""
 	}
 	return false, why
+}
+
+// isNewlineConst: v is the constant "\n" as a string or as a byte slice literal / conversion.
+func isNewlineConst(v ssa.Value) bool {
+	if str, ok := constString(v); ok {
+		return str == "\n"
+	}
+	if cv, ok := v.(*ssa.Convert); ok {
+		if str, ok := constString(cv.X); ok {
+			return str == "\n"
+		}
+	}
+	// []byte{'\n'}: slice of a fresh one-element array storing '\n'
+	if sl, ok := v.(*ssa.Slice); ok {
+		if al, ok := sl.X.(*ssa.Alloc); ok {
+			if at, ok := al.Type().(*types.Pointer).Elem().Underlying().(*types.Array); ok && at.Len() == 1 {
+				for _, ref := range *al.Referrers() {
+					if ia, ok := ref.(*ssa.IndexAddr); ok {
+						for _, r2 := range *ia.Referrers() {
+							if st, ok := r2.(*ssa.Store); ok {
+								if c, ok := constInt(st.Val); ok && c == '\n' {
+									return true
+								}
+							}
+						}
+					}
+				}
+			}
+		}
+	}
+	return false
 }
